@@ -308,13 +308,14 @@ impl World {
             for (f, t) in pending_reports.drain(..) {
                 self.apply_quiet(&Action::ReportSnapshot { n: f, peer: t, ok: true })?;
             }
-            // a leader whose follower is stuck in Snapshot state without a message in flight gets a failure report
-            // (the transport always reports eventually)
+            // a leader that handed a snapshot to the transport during this leadership and has heard nothing about it
+            // (no report, no acknowledgement, no message in flight any more) gets a failure report: the transport
+            // always reports eventually - but only about snapshots it was actually given
             let stuck: Vec<(NodeId, NodeId)> = self
                 .nodes
                 .values()
                 .filter(|x| x.running() && x.obs.role == StateRole::Leader)
-                .flat_map(|x| x.obs.prs.iter().filter(|p| p.state == raft::ProgressState::Snapshot).map(move |p| (x.id, p.id)))
+                .flat_map(|x| x.obs.prs.iter().filter(|p| p.state == raft::ProgressState::Snapshot && x.snap_handed.contains_key(&p.id)).map(move |p| (x.id, p.id)))
                 .collect();
             for (l, p) in stuck {
                 if !self.flights.iter().any(|(k, f)| k.f == l && k.t == p && f.msg.get_msg_type() == MessageType::MsgSnapshot) {
